@@ -38,7 +38,8 @@ class Node:
 class Program:
     """Tree with identities: every node gets an id in flat (textual) order."""
 
-    def __init__(self, tree, nqubits, prepare="prepare_all", measure="measure_all"):
+    def __init__(self, tree, nqubits, prepare="prepare_all", measure="measure_all", variant="A"):
+        self.variant = variant
         self.n = nqubits
         self.p_gate = prepare
         self.m_gate = measure
@@ -205,7 +206,7 @@ class Program:
             return st
         qs = [a[2] for a in leaf.args if isinstance(a, tuple) and a[0] == "q"]
         cl = [a for a in leaf.args if not isinstance(a, tuple)]
-        U = gateset_sig.unitary(name, cl)
+        U = gateset_sig.unitary(name, cl, self.variant)
         if U is None:
             return st
         if log is not None:
